@@ -392,11 +392,11 @@ def r10e(ctx):
 def run(ctx):
     fam = families(ctx.repo, ctx.tier)
     ctx.analysed["families"] = {k: [c.qual for c in v] for k, v in fam.items()}
-    r10a(ctx, fam)
-    r10b(ctx)
-    r10c(ctx)
-    r10d(ctx)
-    r10e(ctx)
+    ctx.guard(r10a, fam)
+    ctx.guard(r10b)
+    ctx.guard(r10c)
+    ctx.guard(r10d)
+    ctx.guard(r10e)
 
 
 SELFTEST = {
